@@ -344,7 +344,8 @@ class Tracer(SymEval):
                 e = self.eval(n["e"], dict(env))
             finally:
                 self.guards.pop()
-        return app("ite", c, t, e)
+        from .symx import mk_ite
+        return mk_ite(c, t, e)
 
     def e_block(self, n, env):
         pushed = [0]
